@@ -38,7 +38,7 @@ EXTENDS TopologyGuards, Json
 
 CONSTANTS
     NPods,        \* pods per batch
-    Archs,        \* archetype ids the batch is drawn from (subset of 1..23)
+    Archs,        \* archetype ids the batch is drawn from (subset of 1..24)
     Layouts,      \* existing-state ids (subset of 0..9)
     MaxClaims,    \* new NodeClaims per pass
     W_AllDomains, W_Inverse, W_Certain, W_Bootstrap, W_Slack, W_Exclude, W_MatchKeys, W_MinDomains, W_Policies,
@@ -95,6 +95,7 @@ Arch(a, name) ==
       [] a = 22 -> [App(p, "s") EXCEPT !.spread = <<[Spr("zone", 1) EXCEPT !.taintPol = "Honor"]>>, !.tol = <<TolDedicated>>]
       \* namespaces list AND namespaceSelector on one term (union: the list names "other", the selector picks "default")
       [] a = 23 -> [p EXCEPT !.anti = <<[Term("zone", "x") EXCEPT !.ns = <<"other">>, !.nsSel = [tier |-> "dev"]]>>]
+      [] a = 24 -> [App(p, "s") EXCEPT !.spread = <<[Spr("zone", 1) EXCEPT !.minDomains = 2]>>]   \* minDomains 2 = the number of zones
 PodName(i) == "w" \o ToString(i)
 Batches == {s \in [1..NPods -> Archs] : \A i \in 1..(NPods - 1) : s[i] <= s[i + 1]}
 
